@@ -108,6 +108,14 @@ fn derive_struct_tostring(
         return Err(generic_not_supported("struct", &struct_def.name, attr_ptr));
     }
 
+    check_member_types(
+        "ToString",
+        "struct",
+        &struct_def.name,
+        struct_def.fields.iter().map(|(_, ty)| ty),
+        attr_ptr,
+    )?;
+
     let method = ast::Fn {
         attrs: Vec::new(),
         name: AstIdent::new(TO_STRING_FN),
@@ -137,6 +145,14 @@ fn derive_enum_tostring(
     if !enum_def.generics.is_empty() {
         return Err(generic_not_supported("enum", &enum_def.name, attr_ptr));
     }
+
+    check_member_types(
+        "ToString",
+        "enum",
+        &enum_def.name,
+        enum_def.variants.iter().flat_map(|(_, tys)| tys.iter()),
+        attr_ptr,
+    )?;
 
     let method = ast::Fn {
         attrs: Vec::new(),
@@ -169,6 +185,14 @@ fn derive_struct_tojson(
         ));
     }
 
+    check_member_types(
+        "ToJson",
+        "struct",
+        &struct_def.name,
+        struct_def.fields.iter().map(|(_, ty)| ty),
+        attr_ptr,
+    )?;
+
     let method = ast::Fn {
         attrs: Vec::new(),
         name: AstIdent::new(TO_JSON_FN),
@@ -198,6 +222,14 @@ fn derive_enum_tojson(
     if !enum_def.generics.is_empty() {
         return Err(generic_not_supported_json("enum", &enum_def.name, attr_ptr));
     }
+
+    check_member_types(
+        "ToJson",
+        "enum",
+        &enum_def.name,
+        enum_def.variants.iter().flat_map(|(_, tys)| tys.iter()),
+        attr_ptr,
+    )?;
 
     let method = ast::Fn {
         attrs: Vec::new(),
@@ -622,6 +654,48 @@ fn var_expr(name: &AstIdent, attr_ptr: &MySyntaxNodePtr) -> Expr {
         path: ast::Path::from_ident(name.clone()),
         astptr: *attr_ptr,
     }
+}
+
+// A member of a structural type (tuple, array, function, `dyn`, `Vec[..]`, `Ref[..]`) can never be
+// converted: inherent impls on such types are rejected, so no `to_string` / `to_json` method can
+// exist for it. Report that here instead of generating a call that fails in the type checker.
+fn is_structural_member_ty(ty: &ast::TypeExpr) -> bool {
+    match ty {
+        ast::TypeExpr::TTuple { .. }
+        | ast::TypeExpr::TArray { .. }
+        | ast::TypeExpr::TFunc { .. }
+        | ast::TypeExpr::TDyn { .. } => true,
+        ast::TypeExpr::TApp { ty, .. } => matches!(
+            ty.as_ref(),
+            ast::TypeExpr::TCon { path }
+                if path.len() == 1
+                    && path
+                        .last_ident()
+                        .is_some_and(|name| name.0 == "Vec" || name.0 == "Ref")
+        ),
+        _ => false,
+    }
+}
+
+fn check_member_types<'a>(
+    derive_name: &str,
+    kind: &str,
+    name: &AstIdent,
+    mut member_tys: impl Iterator<Item = &'a ast::TypeExpr>,
+    attr_ptr: &MySyntaxNodePtr,
+) -> Result<(), Diagnostic> {
+    if member_tys.any(is_structural_member_ty) {
+        return Err(Diagnostic::new(
+            Stage::other(DERIVE_STAGE),
+            Severity::Error,
+            format!(
+                "`#[derive({})]` is not supported for {} `{}`: it has a member of a tuple, array, function, dyn, Vec or Ref type",
+                derive_name, kind, name.0
+            ),
+        )
+        .with_range(attr_ptr.text_range()));
+    }
+    Ok(())
 }
 
 fn ty_for_ident(name: &AstIdent) -> ast::TypeExpr {
